@@ -497,23 +497,23 @@ Qed.
 
 (* ------------------------------------------------------------------------------------ *)
 (* non-matching grids: supports exact, column sums within 1e-12 *)
-Lemma cert_support_sound : forall S, cert_support S = true ->
+Lemma cert_support_sound : forall S, cert_supp S = true ->
     incidence_wf (s_nc S) (s_nf S) (s_div S) /\
     coupling_support Q (s_nc S) (s_nf S) (s_nm S) (s_div S) (s_pp S) (s_ps S).
 Proof.
-  intros S H. unfold cert_support in H.
+  intros S H. unfold cert_supp in H.
   repeat (apply andb_true_iff in H; destruct H as [H ?]).
   rename H into H1, H2 into H2', H1 into H3, H0 into H4. rename H2' into H2.
   rewrite forallb_forall in H1, H2, H3, H4.
   split; [split|split].
   - intros t Ht. specialize (H1 t Ht). apply andb_true_iff in H1. destruct H1 as [A B].
     apply Nat.ltb_lt in A. apply Nat.ltb_lt in B. split; assumption.
-  - intros f Hf. apply face_ok_wf. apply H4. apply in_seq. lia.
+  - intros f Hf. apply face_ok_wf. apply H2. apply in_seq. lia.
   - intros t Ht. specialize (H3 t Ht).
     apply andb_true_iff in H3. destruct H3 as [H3 C].
     apply andb_true_iff in H3. destruct H3 as [A B].
     apply Nat.ltb_lt in A. apply Nat.ltb_lt in C. repeat split; assumption.
-  - intros t Ht. specialize (H2 t Ht). apply andb_true_iff in H2. destruct H2 as [A B].
+  - intros t Ht. specialize (H4 t Ht). apply andb_true_iff in H4. destruct H4 as [A B].
     apply Nat.ltb_lt in A. apply Nat.ltb_lt in B. split; assumption.
 Qed.
 
